@@ -138,6 +138,9 @@ func Invisible(r rune) bool {
 	if unicode.In(r, unicode.Cf, unicode.Mn, unicode.Me) {
 		return true
 	}
+	if (r >= 0x1160 && r <= 0x11ff) || (r >= 0xd7b0 && r <= 0xd7ff) {
+		return true // conjoining Hangul vowels and final consonants: no column of their own on a terminal
+	}
 	return (r >= 0xfdd0 && r <= 0xfdef) || r&0xfffe == 0xfffe
 }
 
